@@ -226,6 +226,19 @@ func cases(c *eng.Ctx) []*Spec {
 func run(c *eng.Ctx) {
 	list := cases(c)
 	procBase := runtime.NumGoroutine()
+	defer func() {
+		// create-vs-close races: own workload, own case indices after the list
+		for v := 0; v < 6; v++ {
+			idx := len(list) + v
+			if !c.Mine(idx) {
+				continue
+			}
+			settle(procBase)
+			c.R.Begin(idx)
+			nt := runCreateCloseRace(c, idx, v)
+			c.R.End(idx, eng.Hash("c14-race", v), nt)
+		}
+	}()
 	for idx, sp := range list {
 		if !c.Mine(idx) {
 			continue
